@@ -485,3 +485,86 @@ func resolveParam(p *core.Program, v ssa.Value) ssa.Value {
 	}
 	return v
 }
+
+// foldInt evaluates an integer-valued SSA expression with every field load of
+// the given names bound to a constant: constants, + - * / << >>, conversions,
+// phis whose incoming values agree, and calls of single-result helpers of the
+// module (evaluated on their own body, field loads bound by name likewise).
+func foldInt(v ssa.Value, fields map[string]int64, depth int) (int64, bool) {
+	if depth > 8 {
+		return 0, false
+	}
+	if k, ok := guard.ConstInt(v); ok {
+		return k, true
+	}
+	switch x := v.(type) {
+	case *ssa.Convert:
+		return foldInt(x.X, fields, depth+1)
+	case *ssa.ChangeType:
+		return foldInt(x.X, fields, depth+1)
+	case *ssa.UnOp:
+		if x.Op == token.MUL {
+			if _, fld, ok := guard.FieldOf(x); ok {
+				k, has := fields[fld]
+				return k, has
+			}
+		}
+		if x.Op == token.SUB {
+			k, ok := foldInt(x.X, fields, depth+1)
+			return -k, ok
+		}
+	case *ssa.BinOp:
+		a, ok1 := foldInt(x.X, fields, depth+1)
+		b, ok2 := foldInt(x.Y, fields, depth+1)
+		if !ok1 || !ok2 {
+			return 0, false
+		}
+		switch x.Op {
+		case token.ADD:
+			return a + b, true
+		case token.SUB:
+			return a - b, true
+		case token.MUL:
+			return a * b, true
+		case token.QUO:
+			if b != 0 {
+				return a / b, true
+			}
+		case token.SHL:
+			if b >= 0 && b < 62 {
+				return a << uint(b), true
+			}
+		case token.SHR:
+			if b >= 0 && b < 62 {
+				return a >> uint(b), true
+			}
+		}
+	case *ssa.Phi:
+		var val int64
+		for i, e := range x.Edges {
+			k, ok := foldInt(e, fields, depth+1)
+			if !ok || (i > 0 && k != val) {
+				return 0, false
+			}
+			val = k
+		}
+		return val, len(x.Edges) > 0
+	case *ssa.Call:
+		g := x.Call.StaticCallee()
+		if g == nil || g.Blocks == nil || core.FuncClass(g) != core.Product || g.Signature.Results().Len() != 1 {
+			return 0, false
+		}
+		var val int64
+		n := 0
+		for _, ret := range guard.Returns(g) {
+			k, ok := foldInt(ret.Results[0], fields, depth+1)
+			if !ok || (n > 0 && k != val) {
+				return 0, false
+			}
+			val = k
+			n++
+		}
+		return val, n > 0
+	}
+	return 0, false
+}
